@@ -377,6 +377,7 @@ impl Prop for C20 {
             "the 9600-baud chain uses the ZeroCrossing block (the property's 'zero-crossing clock recovery'), not the example's literal SymbolSync(IirFilter[0.0001, 0.99999999])".into(),
             "a frame counts as transmitted 'with more stream following': >= 40 (1200 baud) / 300 (9600 baud) trailing flags, or the closing flag, >= 1 idle flag and 16 000 / 64 000 samples of silence, because FftFilter never flushes its last partial block (30 000 generated silence-tail cases decoded completely on the unchanged tree before the mode was enabled)".into(),
             "noiseless, constant-amplitude signals without frequency offset".into(),
+            "PduWriter cases (one in four): files are named by the microsecond of their writing; consecutive files of one writer get distinct names because each costs an open/write/close (the only place where the wall clock enters an oracle)".into(),
         ]
     }
 }
